@@ -1593,3 +1593,23 @@ def recalc_all_rule(rep, F):
                 rep.violation("RECALC-all", "recalculate_outputs|%s" % ev_name, "AssetCategorizer::recalculate_outputs can finish an iteration over the output proposals without %s: an output whose token quantity grew (a later UTxO holding the same token) keeps the size and minimum ADA computed for the old quantity" % ev_name, {})
     if n == 0:
         rep.lost("recalculate_outputs: no loop over tx_output_proposals")
+
+
+def json_filter_rule(rep, F):
+    """a hand-written JSON writer writes what is stored"""
+    rep.rule("JSON-filter", "no hand-written serde::Serialize impl passes what it writes through a filtering or de-duplicating step (Iterator::filter / filter_map / take / skip ..., Option::filter, Vec::dedup / retain, the deduplicated_view / deduplicated_clone helpers): the JSON form carries the value as it is - the sub-scripts of a ScriptAll / ScriptNOfK may repeat, repeats are part of the script and of its hash, and from_json(to_json(v)) must be equal to v")
+    DROP = re.compile(r"(Iterator::(filter|filter_map|flat_map|flatten|take|skip|take_while|skip_while|find|step_by|map_while)$|Option::<T>::(filter|take_if|xor)$|Vec::<T, A>::(dedup|dedup_by|dedup_by_key|retain|retain_mut|truncate)$|::deduplicated_view$|::deduplicated_clone$)")
+    n = 0
+    for fid, fn in F.fns.items():
+        if "/tests/" in fn["file"] or F.is_derived(fid):
+            continue
+        base = fid.split("::{closure")[0]
+        it = (F.fns.get(base) or {}).get("impl_trait") or ""
+        if not (it.startswith("serde::Serialize") or it.startswith("serde::ser::Serialize")):
+            continue
+        n += 1
+        rep.inst("JSON-filter")
+        for c in F.calls(fid):
+            if DROP.search(c.to or ""):
+                rep.violation("JSON-filter", "%s|%s" % (F.key(base), (c.to or "").rsplit("::", 1)[-1]), "%s passes what it writes through `%s`: content the value holds is missing from its JSON form, so from_json(to_json(v)) is a different value with different CBOR bytes (and, for a native script, a different hash)" % (F.key(base), c.to), {"file": fn.get("file"), "line": c.line})
+    rep.floor("hand-written JSON writers inspected", 20, n)
